@@ -305,6 +305,12 @@ func (g *FnGen) doCall(ci ssa.CallInstruction, v ssa.Value) {
 			g.checkCalleeKey(ci, k)
 			g.havocKey(k)
 		}
+		// variables of this function captured by a closure that the call may run
+		for _, k := range sortedKeys(g.E.localClosureFVKeys(ci)) {
+			if !whole[k] {
+				g.havocKey(k)
+			}
+		}
 		// struct fields the callee writes on the object one of its arguments points to are
 		// havoced at that object only
 		var ais []int
@@ -853,6 +859,10 @@ func (g *FnGen) finish() {
 		resultEnv(env, sig, rs)
 		g.st = r.st
 		for i, e := range g.C.Ensures {
+			if g.C.AssumedClauses[e.Name] {
+				g.assumptions["postcondition "+e.Name+" of "+g.name+" is a definition/assumption, not proved (assumed)"] = true
+				continue
+			}
 			ctx := &EvalCtx{g: g, env: env, st: r.st, oldSt: g.entrySt, oldEnv: g.env, guard: r.guard}
 			label := clauseLabel(e, i)
 			if len(g.rets) > 1 {
